@@ -228,19 +228,21 @@ theorem unrepaired_api_replace_inverted {σ : Type} (drv : σ → Op → σ × R
 /-! ## The Mongo driver: identifiers -/
 
 /-- **Ids come back as given**: `_id_from_db ∘ _id_to_db` is the identity on every string (24 lower-case hex
-digits travel as an ObjectId, everything else as itself) — except the one shape on which the regex `…$` and
-`bson.ObjectId` disagree (24 lower-case hex digits followed by a newline: `_id_to_db` raises, recorded finding
-C06-mongo-id-newline). -/
-theorem mongo_id_roundtrip (s : Str) (h : ¬ OidNewline s) :
-    ∃ d, Mongo.idToDb s = some d ∧ Mongo.idFromDb d = s :=
-  idToDb_roundtrip s h
+digits travel as an ObjectId, everything else as itself; repaired `fullmatch`). -/
+theorem mongo_id_roundtrip (s : Str) : ∃ d, Mongo.idToDb Fix.repaired s = some d ∧ Mongo.idFromDb d = s :=
+  idToDb_roundtrip s
 
 /-- **Distinct ids stay distinct** in the engine (case-sensitively): `_id_to_db` is injective. -/
-theorem mongo_id_injective (s t : Str) (d : Mongo.DbId) (hs : Mongo.idToDb s = some d) (ht : Mongo.idToDb t = some d) :
-    s = t :=
+theorem mongo_id_injective (s t : Str) (d : Mongo.DbId) (hs : Mongo.idToDb Fix.repaired s = some d)
+    (ht : Mongo.idToDb Fix.repaired t = some d) : s = t :=
   idToDb_injective s t d hs ht
 
-example : ¬ OidNewline [68, 69, 65, 68] := by simp [OidNewline]
+/-- The code as found (`_OBJECT_ID_RE.match`, where `$` also matches before a final newline): the id made of
+24 lower-case hex digits and a newline is taken for an ObjectId, which `bson.ObjectId` refuses (`InvalidId`). -/
+theorem unrepaired_mongo_id_newline :
+    Mongo.idToDb Fix.asFound ([48, 49, 50, 51, 52, 53, 54, 55, 56, 57, 97, 98, 99, 100, 101, 102, 48, 49, 50, 51, 52, 53, 54, 55] ++ [10])
+      = none := by
+  decide
 
 /-- Why the ObjectId test must be case-sensitive: with a test that accepts hex digits of either case, the id
 `DEADBEEF00112233AABBCCDD` comes back lower-cased and collides with its lower-case spelling. -/
@@ -248,7 +250,7 @@ theorem mongo_loose_id_test_not_injective :
     let up : Str := [68, 69, 65, 68, 66, 69, 69, 70, 48, 48, 49, 49, 50, 50, 51, 51, 65, 65, 66, 66, 67, 67, 68, 68]
     let lo : Str := [100, 101, 97, 100, 98, 101, 101, 102, 48, 48, 49, 49, 50, 50, 51, 51, 97, 97, 98, 98, 99, 99, 100, 100]
     idToDbLoose up = idToDbLoose lo ∧ (idToDbLoose up).map Mongo.idFromDb = some lo ∧ up ≠ lo ∧
-    (Mongo.idToDb up).map Mongo.idFromDb = some up := by
+    (Mongo.idToDb Fix.repaired up).map Mongo.idFromDb = some up := by
   decide
 
 end QtVerif.Store.C06
